@@ -66,8 +66,9 @@ def hand_universes():
     # 5 kernel: syscalls, caller, forbidden uses
     us.append({"mods": [
         mod("la::a", [proc("u", [op(1), it("caller")]), proc("v", [op(2)])]),
-        mod("la::b", [proc("w", [it("sys", n="k1")])])],
-        "kernel": [mod("#sys", [proc("k1", [op(11), it("caller")]), proc("k2", [op(12), X("xexec", "la::a", "v")]), proc("ki", [op(13)], export=False)])],
+        mod("la::b", [proc("w", [it("sys", n="k1")])]),
+        mod("la::c", [proc("v", [op(3)])])],
+        "kernel": [mod("#sys", [proc("k1", [op(11), it("caller")]), proc("k2", [op(12), X("xexec", "la::c", "v")]), proc("ki", [op(13)], export=False)])],
         "progs": [prog([it("sys", n="k1"), it("sys", n="k2")]), prog([it("sys", n="ki")]), prog([it("caller")]),
                   prog([X("xexec", "la::a", "u")]), prog([X("xcall", "la::b", "w"), it("sys", n="nope")]), prog([X("xexec", "la::b", "w")]), prog([X("xcall", "la::b", "w")])]})
     # 6 invalid sources: local index out of range, export in a program, import cycle
@@ -115,6 +116,13 @@ def hand_universes():
             mod("lc::c", [proc("leaf", [op(2)])])],
             "kernel": [mod("#sys", [proc("k1", [op(11), X("xexec", "lb::m", "q")])])],
             "progs": [prog([it("sys", n="k1")]), prog([X("xcall", "lb::m", "r")])]})
+    # 14 a kernel that imports from a library module which uses `caller` (allowed in the kernel module only): the kernel is
+    # invalid, whatever was compiled before; the same module is also rejected when a program imports it
+    us.append({"mods": [
+        mod("la::a", [proc("u", [op(1), it("caller")]), proc("v", [op(2)])]),
+        mod("lc::c", [proc("leaf", [op(2)])])],
+        "kernel": [mod("#sys", [proc("k1", [op(11), it("caller")]), proc("k2", [op(12), X("xexec", "la::a", "v")])])],
+        "progs": [prog([it("sys", n="k1")]), prog([X("xexec", "la::a", "u")]), prog([X("xexec", "lc::c", "leaf")])]})
     return us
 
 
